@@ -339,7 +339,7 @@ func (e2eFamily) Gen(n int, seed int64, mode, tier string) []interface{} {
 						s.pub(c, "x/y", "hello", rng.Intn(2), false)
 					}
 				}
-				switch rng.Intn(6) {
+				switch rng.Intn(7) {
 				case 0:
 					s.add(e2eOp{Op: "send", C: c, P: "disc"})
 				case 1:
@@ -348,6 +348,10 @@ func (e2eFamily) Gen(n int, seed int64, mode, tier string) []interface{} {
 					s.add(e2eOp{Op: "timeout", C: c})
 				case 3:
 					s.add(e2eOp{Op: "send", C: c, P: "connect"}) // protocol error: second CONNECT
+				case 4:
+					// protocol error of the malformed kind: acknowledgements without their identifier, a
+					// SUBSCRIBE without filters (what the decoder makes of them is asked of the decoder)
+					s.add(e2eOp{Op: "raw", C: c, Hex: []string{"4000", "6200", "8200", "a200"}[rng.Intn(4)]})
 				default: // stays connected
 					s.add(e2eOp{Op: "send", C: c, P: "ping"})
 				}
